@@ -50,7 +50,7 @@ def plan(tier):
 
 
 def ncases(tier):
-    return 350 if tier == "quick" else 6000
+    return 700 if tier == "quick" else 6000
 
 
 def gen_case(rng, i):
